@@ -120,43 +120,41 @@ def run(ctx):
     op_roots = [f_ for f_ in m.book_pub_fns() if f_.params and f_.params[0] == "self"]
     n_key = key_write_rules(ctx, m, op_roots)
     ctx.check(n_key >= 4, "K1-key-price", "census", "-", "%d live key writes analysed" % n_key)
-    # creation: key = side key-builder(order.price) under the matching side guard
+    # creation: key = side key-builder(order.price) for the side the order is created on (judged on the views of
+    # create_order specialised to either value of its side parameter: the builder may be chosen in a helper)
     create = m.book_fn("create_order")
-    cq = m.q(create)
-    kb = cq.calls(tuple(key_builders))
-    ctx.check(len(kb) == 2, "K1-key-price", "create|builders", ctx.loc(create), "create_order builds the key with both side key-builders")
-    for c in kb:
-        side = key_builders[c.name]
-        g = [a for a in c.guards if a[0] == "variant" and a[2] == (side,) and a[1][0] == "param" and a[1][2] == "side"]
-        a_price = c.arg_named("price")
-        ok = bool(g) and a_price is not None and a_price[0] == "field" and a_price[2] == "price"
-        ctx.check(ok, "K1-key-price", "create|" + side, c.loc(), "create_order: %s-side key from the new order's own price under `side is %s`" % (side, side),
-                  "create_order: %s(%s) under [%s]" % (c.name, render(a_price) if a_price else "?", c.gtext()))
-    pushes = [c for c in cq.calls("push") if fld(c.args[0], m.f_orders)]
-    if len(pushes) == 1:
-        ent = pushes[0].args[1]
-        ok = ent[0] == "agg" and ent[2].endswith("OrderEntry::OrderEntry")
-        if ok:
-            fields = dict(zip(ent[4], ent[3]))
-            korig = fields["key"]
-            alts = korig[1] if korig[0] == "phi" else (korig,)
-            oalts = fields["order"][1] if fields["order"][0] == "phi" else (fields["order"],)
+    for S in ("Bid", "Ask"):
+        cq = m.sv(create, S)
+        live = cq.cfg.reach_from(0)
+        kb = [c for c in cq.calls(tuple(key_builders)) if c.b in live]
+        ctx.check(len(kb) >= 1 and all(key_builders[c.name] == S for c in kb), "K1-key-price", "create|builders|" + S, ctx.loc(create),
+                  "create_order builds the key of a %s order with the %s-side key-builder" % (S, S),
+                  "create_order builds the key of a %s order with %s" % (S, sorted({c.name for c in kb}) or "no key-builder"))
+        for c in kb:
+            a_price = c.arg_named("price")
+            ok = a_price is not None and a_price[0] == "field" and a_price[2] == "price"
+            ctx.check(ok, "K1-key-price", "create|" + S, c.loc(), "create_order: %s-side key from the new order's own price" % S,
+                      "create_order: %s(%s)" % (c.name, render(a_price) if a_price else "?"))
+        pushes = [c for c in cq.calls("push") if c.b in live and fld(c.args[0], m.f_orders)]
+        ctx.check(len(pushes) == 1, "K1-key-price", "create|push|" + S, ctx.loc(create), "create_order stores exactly one entry")
+        if len(pushes) == 1:
+            ent = pushes[0].args[1]
+            ok = ent[0] == "agg" and ent[2].endswith("OrderEntry::OrderEntry")
+            if ok:
+                fields = dict(zip(ent[4], ent[3]))
+                korig = fields["key"]
+                alts = korig[1] if korig[0] == "phi" else (korig,)
+                oalts = fields["order"][1] if fields["order"][0] == "phi" else (fields["order"],)
 
-            def of_stored_order(x):
-                # the key's price operand is `<o>.price` with <o> the stored order (or, when order and key are joined
-                # together as a pair, one of the joined order values)
-                return same(x, fields["order"]) or any(same(x, o) for o in oalts)
-            ok = all(a[0] == "call" and a[4] in key_builders and a[2][1][0] == "field" and a[2][1][2] == "price" and of_stored_order(a[2][1][1]) for a in alts)
-            if ok and len(oalts) > 1 and len(alts) > 1:
-                # pairwise join: each key alternative is built with the builder of the side whose constructor made that order
-                for a in alts:
-                    o = a[2][1][1]
-                    ctor = [y[4] for y in walk(o) if y[0] == "call" and y[4] in ("buy_limit", "buy_market", "sell_limit", "sell_market")]
-                    want = "Bid" if key_builders[a[4]] == "Bid" else "Ask"
-                    if ctor and not same(o, fields["order"]):
-                        ok = ok and all(("buy" in c) == (want == "Bid") for c in ctor)
-        ctx.check(ok, "K1-key-price", "create|entry", pushes[0].loc(), "the stored entry pairs the order with the key built from that order's price",
-                  "the stored entry's key is not built from the stored order's price")
+                def of_stored_order(x):
+                    # the key's price operand is `<o>.price` with <o> the stored order (or one of its joined alternatives)
+                    return same(x, fields["order"]) or any(same(x, o) for o in oalts)
+                ok = all(a[0] == "call" and a[4] in key_builders and key_builders[a[4]] == S and a[2][1][0] == "field" and a[2][1][2] == "price" and of_stored_order(a[2][1][1]) for a in alts)
+                # the stored order itself is made by the constructors of side S
+                ctors = [y[4] for o in oalts for y in walk(o) if y[0] == "call" and y[4] in ("buy_limit", "buy_market", "sell_limit", "sell_market")]
+                ok = ok and bool(ctors) and all(("buy" in c_) == (S == "Bid") for c_ in ctors)
+            ctx.check(ok, "K1-key-price", "create|entry|" + S, pushes[0].loc(), "the stored entry pairs the %s order with the key built from that order's price" % S,
+                      "the stored entry's key is not built from the stored order's price (or the order is not built by the %s-side constructors)" % S)
     # price writes: only where the key is rebuilt afterwards
     for (f, q) in [(f_, m.sv(f_, S_)) for f_ in op_roots for S_ in ("Bid", "Ask")]:
         for pw in q.writes(field="price", owner="Order"):
@@ -196,7 +194,12 @@ def run(ctx):
         f = root_
         pre = "%s|%s" % (root_.short(), r)
         body = q.body.loop_body(head)
-        g = c.guards
+        # conditions under which the passive order is acquired AND used: those on the queue-head query plus those on the fill
+        # (a condition may be tested on the way from one to the other: `best_order_idx().filter(|_| limit admits ..)`)
+        g = list(c.guards)
+        for x_ in q.calls():
+            if x_.b in body and x_.target is not None and x_.target.path in tw_paths:
+                g += [a for a in x_.guards if a not in g]
         vol_atoms = [a for a in g if a[0] == "cmp" and a[1] in ("gt", "ne") and a[2][0] == "field" and a[2][2] == "vol" and a[3][0] == "const" and a[3][3] == 0
                      and is_agg(a[2])]
         ctx.check(len(vol_atoms) >= 1, "K4-loop", pre + "|vol", c.loc(), "passive order acquired only while aggressor.vol > 0",
@@ -247,6 +250,13 @@ def run(ctx):
                     return "limit no longer admits the best %s price" % r.lower()
                 if a[0] == "variant" and a[2] == ("None",) and a[1][0] == "call" and a[1][4] == "best_order_idx":
                     return "opposite side empty (best_order_idx is None)"
+                if a[0] == "variant" and a[2] == ("None",) and a[1][0] == "call" and a[1][4] == "filter" and len(a[1][2]) == 2 \
+                        and a[1][2][0][0] == "call" and a[1][2][0][4] == "best_order_idx" and a[1][2][1][0] == "agg" and a[1][2][1][1] == "closure":
+                    # best_order_idx().filter(|_| cond) is None: the side is empty or cond is false - cond must be the loop condition
+                    from analysis.cfg import closure_apply
+                    pred = closure_apply(ctx.prog, a[1][2][1], [("field", ("downcast", a[1][2][0], "Some"), "0", "")])
+                    if pred is not None and ((pred[0] == "bin" and pred[1] == "BitAnd" and is_cond_conj(pred[2]) and is_cond_conj(pred[3])) or is_cond_conj(pred)):
+                        return "opposite side empty or loop condition false"
             return None
 
         def none_sources(b):
@@ -300,7 +310,12 @@ def run(ctx):
                 continue
             for s2 in set(q.body.succs(b)):
                 ats = q.cfg.edge_atoms(b, s2)
-                if any(a[0] == "variant" and a[2] == ("None",) and a[1][0] == "call" and a[1][4] == "best_order_idx" for a in ats):
+                def head_or_filtered(x):
+                    # the queue-head query itself, or `best_order_idx().filter(..)` (None whenever the query is None)
+                    if x[0] == "call" and x[4] == "filter" and len(x[2]) == 2:
+                        x = x[2][0]
+                    return x[0] == "call" and x[4] == "best_order_idx"
+                if any(a[0] == "variant" and a[2] == ("None",) and head_or_filtered(a[1]) for a in ats):
                     none_edges.append((b, s2))
                 elif any(a[0] == "variant" and a[2] == ("None",) for a in ats):
                     defs = q.cfg.switch_value_defs(b) or []
